@@ -140,6 +140,14 @@ class VECTOR_BLF_EXPORT UncompressedFile final : public AbstractFile {
     /** buffer size */
     std::streamsize m_bufferSize {std::numeric_limits<std::streamsize>::max()};
 
+    /**
+     * number of bytes a blocked read() is waiting for
+     *
+     * Writers may exceed the buffer size up to this amount, otherwise a read
+     * larger than the buffer could never be satisfied.
+     */
+    std::streamsize m_readRequest {};
+
     /** error state */
     std::ios_base::iostate m_rdstate {std::ios_base::goodbit};
 
